@@ -8,6 +8,8 @@
 -/
 import Stfs.Model.Sys
 import Stfs.Model.Trig
+import Stfs.Model.Keys
+import Stfs.Model.Sig
 import Stfs.Model.Cut
 import Stfs.Spec.RefFs
 import Stfs.Spec.ByteFile
@@ -298,6 +300,41 @@ def step (s : DState) (line : String) : DState × List String :=
   match line.splitOn "\t" with
   | "cfg" :: fields => ({ s with fs := parseCfg fields }, [])
   | "hist" :: id :: _ => ({ (default : DState) with fs := s.fs }, ["hist\t" ++ id])
+  | "key" :: f :: g :: p :: _ =>
+    -- C18: keygen under password g, parse with password p; pair 1 is the pair itself, pair 2 another one
+    let fmt : Option Keys.KFmt := match f with
+      | "age" => some .age | "pgp" => some .pgp | "minisign" => some .minisign | _ => none
+    (match fmt, decName g, decName p with
+     | some fmt, some g, some p =>
+       let r := Keys.parse fmt (Keys.keygen fmt g 1) p
+       let (ps, use, cross) := match r with
+         | none => ("err", "-", "-")
+         | some i => ("ok", (if Keys.works i 1 then "ok" else "fail"), (if Keys.works i 2 then "ok" else "fail"))
+       let trig := if Keys.pgpEmptyPassword fmt g p then "pgpEmptyPassword" else ""
+       (s, ["keyres\tparse=" ++ ps ++ "\tuse=" ++ use ++ "\tcross=" ++ cross ++ "\ttrig=" ++ trig])
+     | _, _, _ => (s, ["keyres\tbad-line"]))
+  | "sig" :: f :: cls :: _ =>
+    -- C08: the verdict of VerifyHeader (recipient = public half of key 1) on a forged record
+    let fmt : Option Sig.SFmt := match f with | "minisign" => some .minisign | "pgp" => some .pgp | _ => none
+    let e : Name := [123, 125]
+    let e' : Name := [123, 32, 125]
+    let o : Option Sig.Outer := match cls with
+      | "legit" | "outerExtras" | "outerSize" => some { embedded := some e, sig := some (.valid 1 e) }
+      | "editedEmbedded" | "reencoded" => some { embedded := some e', sig := some (.valid 1 e) }
+      | "swapped" => some { embedded := some e, sig := some (.valid 1 e') }
+      | "otherKey" => some { embedded := some e, sig := some (.valid 2 e) }
+      | "missingSig" => some { embedded := some e, sig := none }
+      | "missingEmbedded" => some { embedded := none, sig := some (.valid 1 e) }
+      | "forgedNotPacket" => some { embedded := some e', sig := some .notPacket }
+      | "forgedUndecodable" => some { embedded := some e', sig := some .undecodable }
+      | "undecodable" => some { embedded := some e, sig := some .undecodable }
+      | "notPacket" => some { embedded := some e, sig := some .notPacket }
+      | "notSignature" => some { embedded := some e, sig := some .notSignature }
+      | "noPax" => some { hasPax := false }
+      | _ => none
+    (match fmt, o with
+     | some fmt, some o => (s, ["sigres\t" ++ (if (Sig.verifyHeader fmt 1 o).isSome then "accept" else "reject")])
+     | _, _ => (s, ["sigres\tbad-line"]))
   | "env" :: fields => ({ s with env := parseEnv fields }, [])
   | "item" :: "trl" :: _ => ({ s with items := s.items ++ [.trailer] }, [])
   | "item" :: "rec" :: f =>
